@@ -148,6 +148,44 @@ extern "C"
         }
     }
 
+    // a waiter that is not a thread: an event-driven task parks a `waiter` with a handler (waiter_delegate_init) in the queue
+    // under the system lock and goes on; the wake runs the handler in the waker's thread. kind 1 passes the baton on: its
+    // handler wakes the next waiter of the same queue (a call back into the queue from inside unwait_one / unwait_all).
+    // Parking a delegate that is still parked refreshes its place in the line (move_back / move_front of a linked node).
+    struct Dlg
+    {
+        waiter w;
+        int id, kind;
+        igris::dlist_base *head;
+    };
+    static void dlg_handler(void *arg)
+    {
+        Dlg *d = (Dlg *)arg;
+        h_delegate_woken(d->id, (long)d->w.future);
+        if (d->kind == 1) unwait_one(d->head, 500000 + d->id);
+    }
+    void *prog_delegate_new(int id, int kind)
+    {
+        Dlg *d = new Dlg();
+        d->id = id;
+        d->kind = kind;
+        d->head = nullptr;
+        waiter_delegate_init(&d->w, dlg_handler, d);
+        return d;
+    }
+    void prog_delegate_delete(void *d) { delete (Dlg *)d; }
+    void prog_delegate_park(void *dv, void *head, int prio)
+    {
+        Dlg *d = (Dlg *)dv;
+        igris::dlist_base *h = (igris::dlist_base *)head;
+        system_lock();
+        h_delegate_parking(d->id, prio, head);
+        d->head = h;
+        if (prio) h->move_front(d->w.lnk);
+        else h->move_back(d->w.lnk);
+        system_unlock();
+    }
+
     // ------------------------------------------------------------------ P-queue
     void *prog_queue_new() { return new igris::safe_queue<QItem>(); }
     // the initializer-list constructor: the queue starts with n items of the pseudo producer `prod`
